@@ -1,5 +1,5 @@
 (* C20 — Insertion cost estimates equal true objective changes for additive objectives. *)
-From VRP Require Import Base.Tac Model.Core Model.Objectives Proofs.CoreTimeP Proofs.ObjectivesP.
+From VRP Require Import Base.Tac Model.Core Spec.Feasible Model.Eval Model.Objectives Model.ObjectivesX Proofs.CoreTimeP Proofs.ObjectivesP Proofs.ObjectivesXP.
 
 (* total travelled distance (any time-independent matrix, any position, open or closed, empty or not):
    quote of estimate_leg = distance of the tour after the insertion - distance it contributed before *)
@@ -58,3 +58,113 @@ Theorem C20_value_quote_exact : forall value s route j,
   (forall k, route = Some k -> (k < length (so_routes s))%nat) ->
   fit_value value (apply_ins s route j) - fit_value value s = quote_value value j.
 Proof. exact value_quote_exact. Qed.
+
+(* ---------- widened: driver costs, alternative places / windows, the search of eval_single / eval_multi ---------- *)
+
+(* combined cost objective of an actor = vehicle costs + DRIVER costs (get_total_cost adds both parts; estimate_route quotes both fixed
+   costs, TransportCost::cost / ActivityCost::cost add the rates): quote = realised change when each of the two has uniform time rates
+   and the tour has no waiting before and after *)
+Theorem C20_cost_quote_exact_nowait_driver : forall dur dist v d t idx x,
+  (idx < length t)%nat ->
+  sched_ok dur t -> no_wait t -> no_wait (reschedule dur (insert_after t idx x)) ->
+  v_ptime v = v_psvc v -> v_psvc v = v_pwait v ->
+  dc_ptime d = dc_psvc d -> dc_psvc d = dc_pwait d ->
+  (has_jobs t = false -> (length t <= 2)%nat /\ idx = 0%nat) ->
+  cost_fitness_d dist v d (reschedule dur (insert_after t idx x)) - route_cost_d dist v d t
+  = cost_estimate_route_d v d t + cost_estimate_activity_d dur dist v d t idx x.
+Proof. intros. apply cost_quote_exact_nowait_driver; unfold uniform_v, uniform_d; auto. Qed.
+
+(* the fixed costs (vehicle + driver) are part of the quote exactly when the insertion opens a new tour, and then they are the
+   fixed part of the objective value of that tour *)
+Theorem C20_fixed_cost_quoted_iff_new_tour : forall dur dist v d t idx x,
+  (idx < length t)%nat ->
+  sched_ok dur t -> no_wait t -> no_wait (reschedule dur (insert_after t idx x)) ->
+  v_ptime v = v_psvc v -> v_psvc v = v_pwait v ->
+  dc_ptime d = dc_psvc d -> dc_psvc d = dc_pwait d ->
+  (has_jobs t = false -> (length t <= 2)%nat /\ idx = 0%nat) ->
+  (has_jobs t = false ->
+     cost_fitness_d dist v d (reschedule dur (insert_after t idx x)) = (dc_fixed d + v_fixed v) + cost_estimate_activity_d dur dist v d t idx x) /\
+  (has_jobs t = true ->
+     cost_fitness_d dist v d (reschedule dur (insert_after t idx x)) - cost_fitness_d dist v d t = cost_estimate_activity_d dur dist v d t idx x).
+Proof.
+  intros dur dist v d t idx x H1 H2 H3 H4 H5 H6 H7 H8 H9.
+  pose proof (C20_cost_quote_exact_nowait_driver dur dist v d t idx x H1 H2 H3 H4 H5 H6 H7 H8 H9) as H.
+  unfold route_cost_d, cost_estimate_route_d in H. split; intros Hj; rewrite Hj in H; lia.
+Qed.
+
+(* multi-activity jobs with driver costs: route-level quote once + the activity-level quotes on the shadow tours *)
+Theorem C20_multi_cost_quote_exact_nowait_driver : forall dur dist v d steps t,
+  v_ptime v = v_psvc v -> v_psvc v = v_pwait v ->
+  dc_ptime d = dc_psvc d -> dc_psvc d = dc_pwait d ->
+  steps <> [] -> steps_ok dur t steps -> sched_ok dur t -> shadow_no_wait dur t steps ->
+  (has_jobs t = false -> (length t <= 2)%nat /\ fst (hd (0%nat, mkAct 0 0 0 0 0 dzero 0 0) steps) = 0%nat) ->
+  cost_fitness_d dist v d (apply_steps dur t steps) - route_cost_d dist v d t
+  = cost_estimate_route_d v d t + multi_sum dur (cost_estimate_activity_d dur dist v d) t steps.
+Proof. intros. apply multi_cost_exact_nowait_driver; unfold uniform_v, uniform_d; auto. Qed.
+
+(* the modelled search (eval_job_insertion_in_route -> eval_single / eval_multi, every place x window of every sub-job on every leg of
+   the shadow tours, MultiContext::promote over the start indices and over the allowed permutations of the sub-jobs): a success carries,
+   for every sub-job in one of the allowed orders, an insertion index
+   on the then-current shadow tour and an activity that (1) is one of the declared places / windows of that sub-job, (2) passes the
+   constraint evaluation there, and the quoted cost is the route-level estimate plus the sum of the activity-level estimates of exactly
+   these activities: the quote belongs to what is inserted *)
+Theorem C20_search_quote_belongs_to_inserted_activities : forall w d t j kind cost steps,
+  eval_jobx w d t j kind = GSuccess cost steps ->
+  (exists sv, In sv (jobx_perms j) /\ steps_valid (wdur w) (jobx_ev w j) (closed w) t sv steps) /\
+  cost = jobx_rc w d t kind + multi_sum (wdur w) (jobx_est w d kind) t (map step_of steps).
+Proof. exact eval_jobx_spec. Qed.
+
+(* the loop of eval_multi over the start indices terminates within |tour| + 2 rounds (for every permutation) *)
+Theorem C20_search_terminates : forall w d t j kind, eval_jobx w d t j kind <> GOutOfFuel.
+Proof. exact eval_jobx_terminates. Qed.
+
+(* distance layer: the quote the search returns = the realised change of the tour's distance after inserting the returned activities *)
+Theorem C20_search_distance_quote_exact : forall w d t j cost steps,
+  jobx_ok j ->
+  (has_jobs t = false -> (length t <= 2)%nat /\ leg_count (closed w) t = 1%nat) ->
+  eval_jobx w d t j 1 = GSuccess cost steps ->
+  total_distance (wdist w) (apply_steps (wdur w) t (map step_of steps)) - route_distance (wdist w) t = cost.
+Proof. exact eval_jobx_distance_exact. Qed.
+
+(* cost layer (vehicle + driver): the same under uniform time rates of both and no waiting in any shadow tour *)
+Theorem C20_search_cost_quote_exact_nowait : forall w d t j cost steps,
+  jobx_ok j ->
+  (has_jobs t = false -> (length t <= 2)%nat /\ leg_count (closed w) t = 1%nat) ->
+  sched_ok (wdur w) t ->
+  v_ptime (w_veh w) = v_psvc (w_veh w) -> v_psvc (w_veh w) = v_pwait (w_veh w) ->
+  dc_ptime d = dc_psvc d -> dc_psvc d = dc_pwait d ->
+  eval_jobx w d t j 0 = GSuccess cost steps ->
+  shadow_no_wait (wdur w) t (map step_of steps) ->
+  cost_fitness_d (wdist w) (w_veh w) d (apply_steps (wdur w) t (map step_of steps)) - route_cost_d (wdist w) (w_veh w) d t = cost.
+Proof. intros. apply (eval_jobx_cost_exact_nowait w d t j cost steps); unfold uniform_v, uniform_d; auto. Qed.
+
+(* non-vacuity: (i) a pickup-and-delivery job whose delivery has two alternative places, the first being the cheaper one, inserted into
+   a used tour (distance layer: quote 20, the activity carries place 0); (ii) the first insertion into an unused tour of an actor whose
+   driver has a fixed cost of 40 next to the vehicle's 100 (cost layer: quote 140 + 80 + 120 = 340); all hypotheses hold *)
+Definition nv_mat : list Z := [0; 10; 20; 60; 10; 0; 10; 50; 20; 10; 0; 40; 60; 50; 40; 0].
+Definition nv_world : world := mkWorld 4 nv_mat nv_mat (mkVeh INF 10 100 1 2 2 2) 0 (Some 0) 0.
+Definition nv_pl (l : Z) : place := mkPlace (Some l) 0 [(0, INF)].
+
+Theorem C20_nonvacuous_search_multi_alternative_places :
+  let w := nv_world in let d := mkDC 0 0 0 0 0 in
+  let t := build_tour w [(1, 1, 0, 0, INF, mkDemand 0 0 1 0)] in
+  let j := JMulti [mkSingle 951 [nv_pl 1] (mkDemand 0 2 0 0); mkSingle 952 [nv_pl 2; nv_pl 3] (mkDemand 0 0 0 2)] [[0%nat; 1%nat]] in
+  jobx_ok j /\ (has_jobs t = false -> (length t <= 2)%nat /\ leg_count (closed w) t = 1%nat) /\
+  exists steps, eval_jobx w d t j 1 = GSuccess 20 steps /\ map (fun s => snd (fst s)) steps = [0%nat; 0%nat].
+Proof.
+  cbv zeta. split; [repeat constructor; discriminate|]. split; [intros H; vm_compute in H; discriminate|].
+  eexists. split; vm_compute; reflexivity.
+Qed.
+
+Theorem C20_nonvacuous_search_new_tour_driver_fixed_cost :
+  let w := nv_world in let d := mkDC 40 1 1 1 1 in
+  let t := build_tour w [] in
+  let j := JSingle (mkSingle 90 [nv_pl 2] (mkDemand 0 0 1 0)) in
+  jobx_ok j /\ (has_jobs t = false -> (length t <= 2)%nat /\ leg_count (closed w) t = 1%nat) /\ sched_ok (wdur w) t /\
+  v_ptime (w_veh w) = v_psvc (w_veh w) /\ v_psvc (w_veh w) = v_pwait (w_veh w) /\ dc_ptime d = dc_psvc d /\ dc_psvc d = dc_pwait d /\
+  exists steps, eval_jobx w d t j 0 = GSuccess 340 steps /\ shadow_no_wait (wdur w) t (map step_of steps).
+Proof.
+  cbv zeta. split; [repeat constructor; discriminate|]. split; [intros _; split; [vm_compute; lia|vm_compute; reflexivity]|].
+  split; [vm_compute; auto|]. repeat (split; [reflexivity|]).
+  eexists. split; [vm_compute; reflexivity|]. vm_compute. split; repeat constructor; discriminate.
+Qed.
